@@ -3,10 +3,11 @@ import Verif.Model.CRL
   Line-protocol driver for C08 (CRL generation).
 
   `h cache=<sec> reqs=<R>;<R>;… evs=<E>,<E>,…`
-      R = `g:<now>` (a generation: start-up, tick or forced) |
-          `r:<key>:<revokedAt>:<expiresAt|->:<generateOnRevoke 0|1>:<now>` (a revocation); key = `x<hex>`
+      R = `g:<now>[:<fail>]` (a generation: start-up, tick or forced) |
+          `r:<key>:<revokedAt>:<expiresAt|->:<generateOnRevoke 0|1>:<now>[:<fail>]` (a revocation); key = `x<hex>`;
+          fail = the step at which the generation fails (2 GetCRL, 3 GetRevokedCertificates, 4 StoreCRL), default 0
       E = `s<thread>` | `r0`
-      output: answers of the requests joined by `,` (ok already drop pend), then every list
+      output: answers of the requests joined by `,` (ok already drop pend err), then every list
           stored, oldest first, as ` n=<number>,t=<thisUpdate>,u=<nextUpdate>,e=[<key>:<time>|…]` with entries
           sorted by key
 -/
@@ -24,11 +25,17 @@ def req? (t : String) : Option Req :=
   match t.splitOn ":" with
   | ["g", now] => do
     pure { inp := { kind := .gen, key := [], record := ⟨0, none⟩, now := (← now.toNat?) } }
-  | ["r", key, at_, exp, gor, now] => do
+  | ["g", now, f] => do
+    pure { inp := { kind := .gen, key := [], record := ⟨0, none⟩, now := (← now.toNat?), fail := (← f.toNat?) } }
+  | ["r", key, at_, exp, gor, now] => rev key at_ exp gor now "0"
+  | ["r", key, at_, exp, gor, now, f] => rev key at_ exp gor now f
+  | _ => none
+where
+  rev (key at_ exp gor now f : String) : Option Req := do
     let exp ← if exp = "-" then some none else exp.toNat?.map some
     let gor ← if gor = "1" then some true else if gor = "0" then some false else none
-    pure { inp := { kind := .revoke gor, key := (← str? key), record := ⟨(← at_.toNat?), exp⟩, now := (← now.toNat?) } }
-  | _ => none
+    pure { inp := { kind := .revoke gor, key := (← str? key), record := ⟨(← at_.toNat?), exp⟩, now := (← now.toNat?),
+                    fail := (← f.toNat?) } }
 
 def ev? (t : String) : Option Ev :=
   if t.startsWith "s" then (t.drop 1).toString.toNat?.map .step
@@ -38,7 +45,7 @@ def list? {α : Type} (sep : String) (f : String → Option α) (t : String) : O
   if t = "-" then some [] else (t.splitOn sep).mapM f
 
 def outS : Out → String
-  | .pending => "pend" | .ok => "ok" | .already => "already" | .dropped => "drop"
+  | .pending => "pend" | .ok => "ok" | .already => "already" | .dropped => "drop" | .err => "err"
 
 def strLe : Str → Str → Bool
   | [], _ => true
